@@ -1154,17 +1154,24 @@ func (h *harness) build() {
 			if n.Start < 0 || n.Start >= i {
 				panic(fmt.Sprintf("flow %d: start %d must be an earlier node", i, n.Start))
 			}
-			f := flyt.NewFlow(h.nodes[n.Start])
-			for _, c := range n.Conns {
-				var to flyt.Node
-				if c.To >= 0 {
-					to = h.nodes[c.To]
-				}
-				f = f.Connect(h.nodes[c.From], flyt.Action(c.Action), to)
-			}
-			h.nodes[i] = f
+			h.nodes[i] = flyt.NewFlow(h.nodes[n.Start])
 		default:
 			panic("bad node kind " + n.Kind)
+		}
+	}
+	// connections are made once every node exists: a target may be any node,
+	// including the flow itself or a flow that contains it
+	for i, n := range h.sc.Nodes {
+		if n.Kind != "flow" {
+			continue
+		}
+		f := h.nodes[i].(*flyt.Flow)
+		for _, c := range n.Conns {
+			var to flyt.Node
+			if c.To >= 0 {
+				to = h.nodes[c.To]
+			}
+			f = f.Connect(h.nodes[c.From], flyt.Action(c.Action), to)
 		}
 	}
 }
